@@ -204,31 +204,54 @@ def check_symbolic(cx, rep):
             if not (r[0] == 'sel'):
                 probs.append('no branch between series and closed form')
             else:
-                cj = []
-                stack = [r[1]]
-                while stack:
-                    c = stack.pop()
-                    if c[0] == 'and':
-                        stack += [c[1], c[2]]
+                # whatever the dispatch is written as (one test, early returns, an enum of branches): the leaves of the
+                # select tree must be the series and the closed form, and the condition under which the series is taken must
+                # be  lo < x ∧ x < hi  for two literals lo < 0 < hi  (NaN, failing every comparison, takes the closed form)
+                from ..terms import mk_not, mk_and, mk_or, FALSE as _F, TRUE as _T
+                from .boollogic import equivalent
+
+                def leaves(t, cond):
+                    if isinstance(t, tuple) and t and t[0] == 'sel' and t not in (out.get('series', {}).get('term'), out.get('closed', {}).get('term')):
+                        yield from leaves(t[2], mk_and(cond, t[1]))
+                        yield from leaves(t[3], mk_and(cond, mk_not(t[1])))
                     else:
-                        cj.append(c)
-                for c in cj:
-                    if c[0] == 'fcmp' and c[1] in ('lt', 'le') and c[3] == x and c[2][0] == 'fc':
-                        lo = f64_bits_to_fraction(c[2][1])
-                    elif c[0] == 'fcmp' and c[1] in ('lt', 'le') and c[2] == x and c[3][0] == 'fc':
-                        hi = f64_bits_to_fraction(c[3][1])
-                    elif c[0] == 'fcmp' and c[1] in ('gt', 'ge') and c[2] == x and c[3][0] == 'fc':
-                        lo = f64_bits_to_fraction(c[3][1])
-                    elif c[0] == 'fcmp' and c[1] in ('gt', 'ge') and c[3] == x and c[2][0] == 'fc':
-                        hi = f64_bits_to_fraction(c[2][1])
+                        yield t, cond
+                series_cond = _F
+                for leaf, cond in leaves(r, _T):
+                    if 'series' in out and leaf == out['series']['term']:
+                        series_cond = mk_or(series_cond, cond)
+                    elif 'closed' in out and leaf == out['closed']['term']:
+                        pass
                     else:
-                        probs.append('unrecognised branch condition %s' % term_str(c))
+                        probs.append('a branch returns neither the series nor the closed form')
+                consts = set()
+                cmps = []
+                for t0 in subterms(r):
+                    if t0[0] == 'fcmp' and ((t0[2] == x and t0[3][0] == 'fc') or (t0[3] == x and t0[2][0] == 'fc')):
+                        cmps.append(t0)
+                        cbits = t0[3][1] if t0[2] == x else t0[2][1]
+                        consts.add((f64_bits_to_fraction(cbits), cbits))
+                consts = sorted(c_ for c_ in consts if c_[0] is not None)
+                if len(consts) != 2:
+                    probs.append('the branch does not compare x with exactly two thresholds (%s)' % [float(c_[0]) for c_ in consts])
+                else:
+                    (lo, lob), (hi, hib) = consts
+                    want = ('and', ('fcmp', 'lt', ('fc', lob), x), ('fcmp', 'lt', x, ('fc', hib)))
+                    nan = ('isnan', x)
+                    asm = None
+                    for c_ in cmps + [want[1], want[2]]:
+                        if c_[1] != 'ne':
+                            l_ = ('or', ('not', nan), ('not', c_))
+                            asm = l_ if asm is None else ('and', asm, l_)
+                    for cb_ in (lob, hib):
+                        # a comparison of x with a (non-NaN) literal is unordered exactly when x is NaN
+                        u_ = ('unord', x, ('fc', cb_))
+                        l_ = ('and', ('or', nan, ('not', u_)), ('or', ('not', nan), u_))
+                        asm = l_ if asm is None else ('and', asm, l_)
+                    if equivalent(series_cond, want, asm) is not True:
+                        probs.append('the series is used iff %s, expected iff %s < x < %s' % (term_str(series_cond)[:200], float(lo), float(hi)))
                 if lo is None or hi is None or not (lo < 0 < hi):
                     probs.append('series interval (%s, %s) does not contain 0' % (lo, hi))
-                if 'series' in out and r[2] != out['series']['term']:
-                    probs.append('inside the interval the result is not the series')
-                if 'closed' in out and r[3] != out['closed']['term']:
-                    probs.append('outside the interval the result is not the closed form')
             rep.ob('switch', inst, not probs, '; '.join(probs) or 'Select(%s < x < %s, series, closed form)' % (float(lo), float(hi)), fn=inst, file=file, line=line,
                    msg='; '.join(probs))
             out['lo'], out['hi'] = lo, hi
